@@ -633,10 +633,13 @@ def c11(m, h, i, s):
                 rpnl = (q_old - pre["notional"]) if pre["dir"] == "A" else (pre["notional"] - q_old)
                 newm = post["margin"] if post else 0
                 actual = bal(s.obs, snd) - bal(s.pre, snd) + newm
-                expect = pre["margin"] + rpnl - f - (toll + spread)
+                # what can be charged is capped at the margin there is (a margin of zero cannot be charged anything; the
+                # shortfall is bad debt, which other properties speak about)
+                charged = f if f < 0 else min(f, pre["margin"])
+                expect = pre["margin"] + rpnl - charged - (toll + spread)
                 if actual != expect and not native:
-                    if actual - expect == f:
-                        m.bad(h, i, "reverse_skips_funding", f"reversal: wallet delta + new margin = {actual}, expected margin {pre['margin']} + rpnl {rpnl} - funding {f} - fees {toll + spread} = {expect}")
+                    if charged != 0 and actual - expect == charged:
+                        m.bad(h, i, "reverse_skips_funding", f"reversal: wallet delta + new margin = {actual}, expected margin {pre['margin']} + rpnl {rpnl} - funding {charged} - fees {toll + spread} = {expect}")
                     else:
                         # a discrepancy that is not the funding amount (e.g. reversal of a position with negative
                         # equity, which the code pays out by absolute value) is not a statement of this property
@@ -651,9 +654,16 @@ def c11(m, h, i, s):
             realized = tdiv(pre["pnl_spot"] * closed, abs(pre["size"]))
             if pre["margin"] + realized - f >= 0 and post["margin"] != pre["margin"] + realized - f:
                 m.bad(h, i, "partial_close_charge", f"partial close charged {pre['margin'] + realized - post['margin']} instead of the funding owed on the whole position {f}")
-        if path in ("increase", "reduce") and post is not None and f != 0:
-            # the margin moves by the trade's own delta minus the funding owed
-            pass
+        if verb == "close" and post is None and f != 0:
+            # a whole close pays out margin + realised PnL - funding owed - fees: what it implies was charged is f, once
+            native = h.deploy["native"] == 1
+            q_exch = abs(I(s.obs, f"v{v}.q") - I(s.pre, f"v{v}.q"))
+            rpnl = (q_exch - pre["notional"]) if pre["dir"] == "A" else (pre["notional"] - q_exch)
+            toll, spread = fees_for(s.pre, v, pre["notional"])
+            delta = bal(s.obs, snd) - bal(s.pre, snd)
+            charged = pre["margin"] + rpnl - (int(s.toks[2]) if native else toll + spread) - delta
+            if pre["margin"] + rpnl - f >= 0 and charged != f:
+                m.bad(h, i, "close_charge", f"whole close charged {charged} of funding, owed {f}")
 
 
 # ------------------------------------------------------------------------------------------- C12
